@@ -145,8 +145,8 @@ TRANSLATE = os.path.join(VERIF, "translate")
 GEN_DIR = os.path.join(LEAN, "GoSSE", "Gen")
 GEN_EQUIV = "GoSSE.Proofs.GenEquiv"
 GEN_EQUIV_MODS = ["GoSSE.Proofs.GenEquiv", "GoSSE.Proofs.GenEquivQueue", "GoSSE.Proofs.GenEquivFields",
-                  "GoSSE.Proofs.GenEquivScan"]
-GEN_MODS = ["Parser", "Root", "Bufio", "Fields"]   # in import order
+                  "GoSSE.Proofs.GenEquivScan", "GoSSE.Proofs.GenEquivWrite"]
+GEN_MODS = ["Parser", "Root", "Bufio", "Fields", "Write"]   # in import order
 
 
 def _theorem_at(path, lineno):
